@@ -2,7 +2,8 @@
 (1) call histories on item graders vs fresh instances (oracle) and vs the Lean call state machine instantiated with
 outcome tables measured on fresh graders; (2) snapshot checks: author config objects, evaluator scopes, class-level
 defaults and process-wide settings are unchanged by construction and grading."""
-import copy, itertools, json, re
+import copy
+import json, itertools, re
 import gradegen as GG
 from common import with_alarm, Timeout
 
@@ -345,6 +346,37 @@ def registered_defaults(ctx):
             for c, d in reversed(layers):                              # superclass first, subclass on top
                 expected.update(d)
             history = []
+            # ---- correspondence with the object-identity model Rd.applyDefaults: the method itself, on a history of calls
+            from mitxgraders.baseclasses import ObjectWithSchema
+            walk, k_ = [type(plain)], type(plain)
+            while k_ is not ObjectWithSchema:
+                k_ = k_.__bases__[0]; walk.append(k_)
+            regs = {}                                                   # python id -> (model id, dict object)
+            for k_ in walk:
+                if k_.default_values is not None and id(k_.default_values) not in regs:
+                    regs[id(k_.default_values)] = (len(regs), k_.default_values)
+            jd = lambda dct: [[str(a), json.dumps(b, sort_keys=True, default=repr)] for a, b in dct.items()]
+            chain_ids = [None if k_.default_values is None else regs[id(k_.default_values)][0] for k_ in walk]
+            cells_before = [[mid, jd(obj)] for mid, obj in regs.values()]
+            mcalls, impl_outs = [], []
+            for _ in range(rng.randint(1, 4)):
+                ex = dict(rng.choice(explicit_pool), **rng.choice([{}, {'case_sensitive': True}, {'tolerance': 0.25}, {'wrong_msg': 'w2', 'zzz_unknown': [1, 2]}]))
+                out = plain.apply_registered_defaults(ex)
+                mcalls.append([chain_ids, jd(ex)])
+                impl_outs.append((jd(out), [mid for mid, obj in regs.values() if out is obj], out is ex))
+            if ctx.driver:
+                o = ctx.driver.ask_many([{'op': 'defaults_hist', 'cells': cells_before, 'next': len(regs), 'calls': mcalls}])[0]
+                mcase = dict(case, calls=mcalls)
+                if 'out' not in o:
+                    ctx.disagree('defaults model error', mcase, None, o)
+                else:
+                    if [a for a, _, _ in impl_outs] != [m[1] for m in o['out']]:
+                        ctx.disagree('apply_registered_defaults: contents/order differ from the model', mcase, [a for a, _, _ in impl_outs], [m[1] for m in o['out']])
+                    if any(al or same for _, al, same in impl_outs):
+                        ctx.disagree('apply_registered_defaults returned an existing dictionary object (the model allocates a new one)', mcase, [(al, same) for _, al, same in impl_outs], 'fresh')
+                    if [[mid, jd(obj)] for mid, obj in regs.values()] != o['cells']:
+                        ctx.disagree('registered dictionaries after the calls differ from the model (which never writes to them)', mcase, [[mid, jd(obj)] for mid, obj in regs.values()], o['cells'])
+                ctx.count('registered-defaults:model histories')
             for step in range(rng.randint(2, 5)):
                 ex = dict(rng.choice(explicit_pool))
                 try:
